@@ -216,6 +216,10 @@ def _typeof(node):
         return {n: (s, ()) for n, s in node[1]}, (node[3], tuple(node[2]))
     if k == "var":
         return {node[1]: (node[2][0], tuple(node[2][1]))}, (node[2][0], tuple(node[2][1]))
+    if k == "gauss":
+        inp = {n: (s_, ()) for n, s_ in node[1]}
+        inp.update({n: ("real", tuple(sh)) for n, sh in node[2]})
+        return inp, ("real", ())
     if k == "un":
         inp, (dt, sh) = typeof(node[2])
         if node[1] in ("exp", "log"):
@@ -258,7 +262,7 @@ def _typeof(node):
         inp, out = typeof(node[2])
         names = {n for n, s in node[3]}
         for n, s in node[3]:
-            if n in inp and inp[n] != (s, ()):
+            if n in inp and inp[n] != _vdom(s):
                 raise HarnessError(f"reduced var {n}:{s} vs {inp[n]}")
         return {n: d for n, d in inp.items() if n not in names}, out
     if k == "sub":
@@ -347,6 +351,13 @@ def _typeof(node):
     raise HarnessError(f"unknown node {k}")
 
 
+def _vdom(s):
+    """domain of a bound variable spec: int size, or ("real", shape)."""
+    if isinstance(s, (tuple, list)):
+        return ("real", tuple(s[1]))
+    return (s, ())
+
+
 def typeof_value(v, dom):
     """Type of a substitution value given the domain of the input it replaces."""
     k = v[0]
@@ -366,6 +377,27 @@ def free_inputs(node):
 
 
 # --------------------------------------------------------------- the oracle
+class Undecided(Exception):
+    """No closed form for this reduction over a real variable: neither pass nor violation."""
+
+
+class NotNormalizable(Exception):
+    """The integrated block carries too little information: funsor must raise, not return a number."""
+
+
+def gauss_value(node, env):
+    """-1/2 || x S - w ||^2 with x the concatenation of the real inputs in declaration order."""
+    _, ints, reals, order, rank, wflat, sflat = node[:7]
+    bshape = tuple(s_ for n, s_ in ints)
+    D = sum(int(np.prod(sh)) if sh else 1 for n, sh in reals)
+    w = np.asarray(wflat, dtype=float).reshape(bshape + (rank,))
+    S = np.asarray(sflat, dtype=float).reshape(bshape + (D, rank))
+    idx = tuple(int(env[n]) for n, s_ in ints)
+    x = np.concatenate([np.asarray(env[n], dtype=float).reshape(-1) for n, sh in reals]) if reals else np.zeros(0)
+    r = x @ S[idx] - w[idx]
+    return -0.5 * float(r @ r)
+
+
 class OutOfDomain(Exception):
     """The expression applies an op outside its numeric domain at this point
     (division by zero, log/sqrt of a negative, ...): the case is discarded."""
@@ -443,6 +475,8 @@ class Oracle:
         if k == "var":
             v = env[node[1]]
             return np.asarray(v)
+        if k == "gauss":
+            return np.asarray(gauss_value(node, env))
         if k == "un":
             x = ev(node[2], env)
             x = x.astype(bool) if node[1] == "invert" else np.asarray(x, dtype=float)
@@ -476,6 +510,10 @@ class Oracle:
             x = ev(node[2], env)
             i = int(ev(node[3], env))
             return x[(slice(None),) * node[1] + (i,)]
+        if k == "red" and any(isinstance(s_, (tuple, list)) for n, s_ in node[3]):
+            return self._red_real(node, env)
+        if k == "integrate" and any(isinstance(s_, (tuple, list)) for n, s_ in node[3]):
+            return self._integrate_real(node, env)
         if k == "red":
             op = node[1]
             vs = node[3]
@@ -563,6 +601,104 @@ class Oracle:
             return ev(node[2], env)
         raise HarnessError(f"unknown node {k}")
 
+    # ---- closed forms over real variables (Gaussian integrals), DESIGN.md 2.2
+    def _probe_quadratic(self, fn, shapes):
+        """Coefficients (P, eta, c) of z -> fn(z) = -1/2 z'Pz + z'eta + c, obtained by
+        evaluating fn (the point-wise oracle) at 0, +-e_i and e_i+e_j; verified at an
+        extra point.  Raises Undecided if fn is not quadratic."""
+        sizes = [int(np.prod(sh)) if sh else 1 for sh in shapes]
+        D = sum(sizes)
+
+        def call(z):
+            parts, o = [], 0
+            for sh, n in zip(shapes, sizes):
+                parts.append(np.asarray(z[o : o + n], dtype=float).reshape(sh))
+                o += n
+            return float(fn(parts))
+
+        f0 = call(np.zeros(D))
+        E = np.eye(D)
+        fp = [call(E[i]) for i in range(D)]
+        fm = [call(-E[i]) for i in range(D)]
+        eta = np.array([(fp[i] - fm[i]) / 2 for i in range(D)])
+        P = np.zeros((D, D))
+        for i in range(D):
+            P[i, i] = -(fp[i] + fm[i] - 2 * f0)
+        for i in range(D):
+            for j in range(i + 1, D):
+                fij = call(E[i] + E[j])
+                P[i, j] = P[j, i] = -(fij - fp[i] - fp[j] + f0)
+        z = np.array([0.7 * ((3 * i) % 5 - 2) + 0.3 for i in range(D)])
+        want = -0.5 * z @ P @ z + z @ eta + f0
+        got = call(z)
+        if not np.isfinite(got) or abs(got - want) > 1e-7 * (1 + abs(want)):
+            raise Undecided("integrand is not quadratic in the reduced real variables")
+        return P, eta, f0
+
+    def _red_real(self, node, env):
+        op, body, vs = node[1], node[2], node[3]
+        if op != "logaddexp":
+            raise Undecided(f"reduce_{op} over a real variable has no closed form")
+        ints = [(n, s_) for n, s_ in vs if not isinstance(s_, (tuple, list))]
+        reals = [(n, tuple(s_[1])) for n, s_ in vs if isinstance(s_, (tuple, list))]
+        vals = []
+        for idx in itertools.product(*[range(s_) for n, s_ in ints]):
+            e2 = dict(env)
+            e2.update({n: i for (n, s_), i in zip(ints, idx)})
+
+            def fn(parts, e2=e2):
+                e3 = dict(e2)
+                for (n, sh), v in zip(reals, parts):
+                    e3[n] = v
+                return self.ev(body, e3)
+
+            P, eta, c = self._probe_quadratic(fn, [sh for n, sh in reals])
+            D = len(eta)
+            w = np.linalg.eigvalsh(P)
+            if w.min() <= 1e-9 * max(1.0, w.max()):
+                raise NotNormalizable("precision of the integrated block is singular")
+            sol = np.linalg.solve(P, eta)
+            sign, logdet = np.linalg.slogdet(P)
+            vals.append(np.asarray(c + 0.5 * (D * math.log(2 * math.pi) - logdet + eta @ sol)))
+        return np.asarray(fold("logaddexp", vals))
+
+    def _integrate_real(self, node, env):
+        _, lm, ig, vs = node
+        ints = [(n, s_) for n, s_ in vs if not isinstance(s_, (tuple, list))]
+        reals = [(n, tuple(s_[1])) for n, s_ in vs if isinstance(s_, (tuple, list))]
+        total = None
+        for idx in itertools.product(*[range(s_) for n, s_ in ints]):
+            e2 = dict(env)
+            e2.update({n: i for (n, s_), i in zip(ints, idx)})
+
+            def mk(body, e2=e2):
+                def fn(parts):
+                    e3 = dict(e2)
+                    for (n, sh), v in zip(reals, parts):
+                        e3[n] = v
+                    return self.ev(body, e3)
+
+                return fn
+
+            shapes = [sh for n, sh in reals]
+            P, eta, c = self._probe_quadratic(mk(lm), shapes)
+            out_shape = typeof(ig)[1][1]
+            if out_shape != ():
+                raise Undecided("array-valued integrand")
+            A, b, k0 = self._probe_quadratic(mk(ig), shapes)
+            D = len(eta)
+            w = np.linalg.eigvalsh(P)
+            if w.min() <= 1e-9 * max(1.0, w.max()):
+                raise NotNormalizable("measure is not normalizable")
+            cov = np.linalg.inv(P)
+            mu = cov @ eta
+            sign, logdet = np.linalg.slogdet(P)
+            logz = c + 0.5 * (D * math.log(2 * math.pi) - logdet + eta @ mu)
+            expect = -0.5 * (np.trace(A @ cov) + mu @ A @ mu) + b @ mu + k0
+            v = np.exp(logz) * expect
+            total = v if total is None else total + v
+        return np.asarray(total)
+
     def ev_value(self, v, env, dom):
         if v[0] == "pynum":
             return np.asarray(v[1])
@@ -597,7 +733,8 @@ def real_points(inputs, k, salt=0):
             shape = inputs[n][1]
             size = int(np.prod(shape)) if shape else 1
             h = sum(ord(c) for c in n) * 7 + j * 13 + salt
-            vals = [0.25 * (1 + ((h + 3 * i * i + 5 * i) % 8)) for i in range(size)]
+            sign = -1.0 if (j % 3 == 2) else 1.0  # every third point has negative coordinates
+            vals = [sign * 0.25 * (1 + ((h + 3 * i * i + 5 * i) % 8)) for i in range(size)]
             pt[n] = np.asarray(vals, dtype=float).reshape(shape)
         pts.append(pt)
     return pts
@@ -638,6 +775,8 @@ def show(node, depth=0):
         return f"T[{names}]{ev}{dt}{ds}"
     if k == "var":
         return f"Var({node[1]}:{node[2][0]}{list(node[2][1]) if node[2][1] else ''})"
+    if k == "gauss":
+        return "Gaussian[" + ",".join(f"{n}:{dict(node[1]).get(n, dict((a, list(b)) for a, b in node[2]).get(n))}" for n in node[3]) + f";rank={node[4]}]"
     if k == "un":
         return f"{node[1]}({show(node[2])})"
     if k == "unp":
@@ -685,7 +824,7 @@ def walk(node):
     """All sub-nodes (pre-order), including substitution values that are nodes."""
     yield node
     k = node[0]
-    if k in ("num", "ten", "var", "slice"):
+    if k in ("num", "ten", "var", "slice", "gauss"):
         return
     for c in node[1:]:
         if isinstance(c, tuple) and c and isinstance(c[0], str) and c[0] in KINDS:
@@ -700,7 +839,7 @@ def walk(node):
 
 KINDS = {
     "num", "ten", "var", "un", "unp", "bin", "getitem", "red", "sub", "stack", "cat", "slice",
-    "lam", "indep", "einsum", "fstack", "fcat", "align", "integrate", "approx",
+    "lam", "indep", "einsum", "fstack", "fcat", "align", "integrate", "approx", "gauss",
 }
 
 
@@ -716,7 +855,7 @@ def _is_node(c):
 def positions(node, path=()):
     """(path, subnode) for every sub-node; path = indices into nested tuples."""
     yield path, node
-    if node[0] in ("num", "ten", "var", "slice"):
+    if node[0] in ("num", "ten", "var", "slice", "gauss"):
         return
     for i, c in enumerate(node[1:], 1):
         if _is_node(c):
@@ -836,6 +975,9 @@ def rename_free(node, old, new):
         return node
     if k == "ten":
         return ("ten", tuple((new if n == old else n, s) for n, s in node[1])) + node[2:]
+    if k == "gauss":
+        rn = lambda n: new if n == old else n  # noqa: E731
+        return ("gauss", tuple((rn(n), s) for n, s in node[1]), tuple((rn(n), sh) for n, sh in node[2]), tuple(rn(n) for n in node[3])) + node[4:]
     if k == "var":
         return ("var", new if node[1] == old else node[1], node[2])
     if k == "slice":
@@ -906,7 +1048,7 @@ def rename_binders(node, counter=None):
 
     A = lambda n: rename_binders(n, counter)  # noqa: E731
     k = node[0]
-    if k in ("num", "ten", "var", "slice"):
+    if k in ("num", "ten", "var", "slice", "gauss"):
         return node
     if k == "un":
         return ("un", node[1], A(node[2]))
